@@ -108,7 +108,7 @@ Proof.
   intros I [k1 k2 k3 k4 k5 k6 k7] H. unfold live, held in *.
   kprep s H; intros Lv e0 Hin; tl_case s; known_cpc s;
     try (destruct k6 as [-> ->]; [solve [eauto]|]);
-    use_guards s; rewrite ?in_app_iff in *; cbn [In] in *; decomp; subst; try discriminate; inj_all;
+    use_guards s; rewrite ?in_app_iff in *; cbn [In] in *; decomp; repeat (match goal with Hrl : In _ (removelast _) |- _ => apply in_removelast in Hrl end); subst; try discriminate; inj_all;
     try discriminate; try contradiction;
     try solve [auto 3];
     try solve [(try left); apply k4; [first [reflexivity|assumption]|cbn [In]; pick5]].
